@@ -1,4 +1,6 @@
 import Pyxv.Proofs.WarningsLemmas
+import Pyxv.Model.WarningsItext
+import Pyxv.Proofs.C07
 /-!
 # C20 — advisory warnings fire exactly when their trigger is present
 
@@ -446,6 +448,38 @@ theorem workbook_meets_spec_perm (lower : Str → Str) (wb : WB) (res : Res) (ws
     exact ⟨v, rfl, by simp [workbookDue, hv], fun hsv hch => model_meets_spec_perm lower wb v res ws hsv hch h⟩
 
 end Multiset
+
+
+/-! ## IANA on the model's language set -/
+
+/-- **iana_survey_iff.**  For a built survey inside the itext model's fragment, a language of ≥ 3 characters is
+    named in the IANA warning iff it is the language of one of the `<translation>` blocks the itext model (C07)
+    generates, is not `default`, and carries no registered `(code)`. -/
+theorem iana_survey_iff (isTag : Str → Bool) (x : Itext.Survey) (o : Itext.Out) (h : Itext.run x = .ok o)
+    (l : Str) (hlen : 3 ≤ l.length) :
+    (∃ bad, W.iana bad ∈ ianaOfSurvey isTag x ∧ l ∈ bad) ↔
+      (∃ t ∈ o.translations, t.lang = l) ∧ ianaDue isTag l = true := by
+  have hl : surveyLanguages x = some (o.translations.map (·.lang)) := by simp [surveyLanguages, h]
+  simp only [ianaOfSurvey, hl, ianaWarning]
+  have hi := iana_iff isTag (o.translations.map (·.lang)) l hlen
+  simp only [List.mem_map] at hi
+  cases hb : languagesWithBadTags isTag (o.translations.map (·.lang)) with
+  | nil =>
+    rw [hb] at hi
+    simp only [List.not_mem_nil, false_and, exists_false, false_iff]
+    intro hc; exact (List.not_mem_nil (hi.mpr hc))
+  | cons b bs =>
+    rw [hb] at hi
+    simp only [List.mem_singleton, W.iana.injEq]
+    constructor
+    · rintro ⟨bad, rfl, hm⟩; exact hi.mp hm
+    · intro hc; exact ⟨_, rfl, hi.mpr hc⟩
+
+/-- non-vacuity: C07's example survey with a second choice labelled in "French" — inside the itext model's fragment,
+    the uncoded language is reported -/
+example : (match Itext.run (Pyxv.C07.ex1 (Pyxv.C07.tr [("French", "B")])) with | .ok _ => true | _ => false) = true ∧
+    ianaOfSurvey (fun c => c = "en".toList) (Pyxv.C07.ex1 (Pyxv.C07.tr [("French", "B")])) = [W.iana ["French".toList]] := by
+  decide +kernel
 
 /-! ## the tables the triggers are read from (pinned: the documented sets) -/
 
